@@ -108,6 +108,44 @@ Theorem c19_sec_memories m x :
   fst (emit_memories m x) = match local_memories m with [] => [] | l => [S_Mems (map (fun p => gen_emit_memory_local (snd p)) l)] end.
 Proof. exact (emit_memories_entries m x). Qed.
 
+(* parse-time map of locals: for the k-th code entry, parameters first, then the declared locals run by run, fresh
+   consecutive ids, with the types of the declaration *)
+From WV Require Import Proofs.Locals2 Proofs.Names.
+Theorem c19_parse_local_map :
+  forall (cf : config) (ver : nstr) (w : wmod) (s : pst),
+         parseM cf ver w = POk s ->
+         exists s1 : pst,
+           parse_secs
+             {|
+               ps_m := empty_wir cf;
+               ps_ids := empty_i2ids;
+               ps_bodies := [];
+               ps_names := [];
+               ps_calls_on_parse := 0
+             |} w = POk s1 /\
+           (forall (k : nat) (b : wbody),
+            nth_error (ps_bodies s1) k = Some b ->
+            exists (fid : N) (f : mfunc) (ty : N) (t : mtype) (base : nat),
+              nth_N (ii_funcs (ps_ids s))
+                (len_N (iter (m_funcs (ps_m s1))) - len_N (ps_bodies s1) + N.of_nat k) = 
+              Some fid /\
+              aget (m_funcs (ps_m s1)) fid = Some f /\
+              fn_kind f = FK_Uninit ty /\
+              types_get (ps_m s) ty = Some t /\
+              (let tys := ty_params t ++ expand_locals (wb_locals b) in
+               let ls := map N.of_nat (seq base (length tys)) in
+               locals_vec (ps_ids s) fid = ls /\
+               (tys <> [] -> locals_of (ps_ids s) fid = Some ls) /\
+               (tys = [] -> locals_of (ps_ids s) fid = None) /\
+               (length (items (m_locals (ps_m s1))) <= base)%nat /\
+               dead (m_locals (ps_m s)) = dead (m_locals (ps_m s1)) /\
+               (forall (j : nat) (tyj : valty),
+                nth_error tys j = Some tyj ->
+                exists lo : mlocal,
+                  nth_error (items (m_locals (ps_m s))) (base + j) = Some lo /\ lo_ty lo = tyj))).
+Proof. exact parseM_local_map. Qed.
+
+
 Print Assumptions c19_parse_ids_are_positions.
 Print Assumptions c19_parse_types.
 Print Assumptions c19_parse_tables.
@@ -125,3 +163,4 @@ Print Assumptions c19_emit_types.
 Print Assumptions c19_sec_imports.
 Print Assumptions c19_sec_tables.
 Print Assumptions c19_sec_memories.
+Print Assumptions c19_parse_local_map.
